@@ -279,6 +279,13 @@ class RegionEval:
                 if a[1] % 2 == 1 or b[1] % 2 == 1 or a[1] != b[1]:
                     return ("r", max(a[1], b[1]) if name == "maximum" else min(a[1], b[1]))
                 return a
+            if name == "clip" and len(t[2]) == 3 and t[2][1][0] == "const" and t[2][2][0] == "const" \
+                    and isinstance(t[2][1][1], (int, float)) and isinstance(t[2][2][1], (int, float)):
+                # clipping to limits that lie strictly outside all boundary constants keeps every region where it is
+                lo_, hi_ = self.R.of_const(t[2][1][1]), self.R.of_const(t[2][2][1])
+                if lo_ == 0 and hi_ == self.R.n - 1:
+                    return self._val(self.ev(t[2][0]))
+                raise AnalysisError("np.clip limits inside the region domain")
             if name == "isclose" and len(t[2]) >= 2:
                 a, b = self.ev(t[2][0]), self.ev(t[2][1])
                 if a[0] == "i" and b[0] == "c":
